@@ -455,6 +455,10 @@ def rule_optused(P) -> RuleResult:
 
 
 def rule_dispatch(P) -> RuleResult:
+    """DispatchingShell.onecmd on terms, over dot prefix x command defined x bare name in the legacy set: dot-commands never reach
+    execute(), other lines do unless their first word is a legacy command name; the legacy names are disjoint from the statement
+    keywords and each has its do_ method."""
+    from ..symex import Sym as _S, T as _T, SList as _L, Engine as _E, show as _sh, _const_eval, _fresh_constant, _NotConstant
     res = RuleResult('R-DISPATCH')
     res.exhaustive = True
     sh = P.module(SH)
@@ -463,33 +467,64 @@ def rule_dispatch(P) -> RuleResult:
     pl = ds.methods.get('parseline') if ds else None
     if oc is None or pl is None:
         raise AnalysisError('anchor vanished: DispatchingShell.onecmd / parseline')
-    # the legacy command set
-    legacy = None
+    SELF, LINE_IN = _S('SHELL'), _S('INPUT_LINE')
+    CMD, ARG, LINE, CMD_L, HANDLER = _S('CMD'), _S('ARG'), _S('LINE'), _S('cmd'), _S('HANDLER')
+    legacy_seen = []
+    outcomes = {}
+    for dotted, known, is_legacy in itertools.product((True, False), (True, False), (True, False)):
+        def on_attr(base, attr, ex):
+            if base == SELF and attr in ds.attrs:
+                try:
+                    return _fresh_constant(('lit', _const_eval(ds.attrs[attr])))
+                except _NotConstant:
+                    return NotImplemented
+            return NotImplemented
 
-    def const_set(e, depth=0):
-        if isinstance(e, (ast.Set, ast.List, ast.Tuple)) and e.elts and all(isinstance(x, ast.Constant) and isinstance(x.value, str) for x in e.elts):
-            return {x.value for x in e.elts}
-        if isinstance(e, ast.Call) and unparse(e.func) in ('frozenset', 'set', 'tuple', 'list') and len(e.args) == 1:
-            return const_set(e.args[0], depth)
-        if isinstance(e, ast.Constant) and isinstance(e.value, str) and ' ' in e.value:
+        def on_call(fn, fv, rc, args, kw, ex, node, _k=known, _d=dotted):
+            name = str(fn)
+            last = name.split('.')[-1]
+            if rc == SELF and last == 'parseline':
+                return _T('tuple', (CMD, ARG, LINE))
+            if last == 'startswith' and rc in (LINE, LINE_IN) and args == ('.',):
+                return _d
+            if last == 'lower' and rc in (CMD, CMD_L):
+                return CMD_L
+            if name == 'getattr' and len(args) >= 2 and args[0] == SELF:
+                return HANDLER if _k else (args[2] if len(args) > 2 else None)
+            if name == 'hasattr' and len(args) == 2 and args[0] == SELF:
+                return _k
+            if rc == SELF and last == 'execute':
+                ex.events.append(('did', 'execute', args))
+                return _S('RESULT')
+            if fv == HANDLER:
+                ex.events.append(('did', 'command', args))
+                return _S('RESULT')
+            if rc == SELF and last == 'error':
+                ex.events.append(('did', 'error', args))
+                return None
+            if name == 'warnings.warn':
+                ex.events.append(('did', 'warn', args))
+                return None
+            return NotImplemented
+
+        def oracle(term, ex, _l=is_legacy):
+            if term in (CMD, CMD_L):
+                return True
+            if isinstance(term, _T) and term.op == 'cmp' and term.args[0] in ('in', 'not in') and term.args[1] in (CMD, CMD_L):
+                c = term.args[2]
+                if isinstance(c, _L) and not c.opaque_tail and all(isinstance(x, str) for x in c.items):
+                    legacy_seen.append(frozenset(c.items))
+                return _l == (term.args[0] == 'in')
             return None
-        if isinstance(e, ast.Call) and isinstance(e.func, ast.Attribute) and e.func.attr == 'split' and isinstance(e.func.value, ast.Constant):
-            return set(e.func.value.value.split(*[a.value for a in e.args if isinstance(a, ast.Constant)]))
-        if depth < 2 and isinstance(e, ast.Name) and e.id in sh.assigns:
-            return const_set(sh.assigns[e.id], depth + 1)
-        if depth < 2 and isinstance(e, ast.Attribute) and isinstance(e.value, ast.Name) and e.value.id in ('self', 'cls'):
-            for k in sh.classes.values():
-                if e.attr in k.attrs:
-                    return const_set(k.attrs[e.attr], depth + 1)
-        return None
-    # the collection of bare command names: the container of the membership test in onecmd (inline or a module / class constant)
-    for n in ast.walk(oc.node):
-        if isinstance(n, ast.Compare) and len(n.ops) == 1 and isinstance(n.ops[0], (ast.In, ast.NotIn)):
-            cs = const_set(n.comparators[0])
-            if cs is not None:
-                legacy = cs
-    if legacy is None:
-        raise AnalysisError('legacy command set of onecmd not found')
+        paths = _E(P, on_attr=on_attr, on_call=on_call, oracle=oracle, max_depth=0).paths(oc, {'self': SELF, oc.params[1]: LINE_IN})
+        key = (dotted, known, is_legacy)
+        for p in paths:
+            if p.decisions:
+                raise AnalysisError(f'{oc.fq}: undecided test `{_sh(p.decisions[0][0])[:60]}`')
+            outcomes.setdefault(key, []).append([e[1] for e in p.events if e[0] == 'did'] + (['raise ' + p.value[0]] if p.outcome == 'raise' else []))
+    if not legacy_seen or len(set(legacy_seen)) != 1:
+        raise AnalysisError(f'legacy command set of onecmd not found on terms ({len(set(legacy_seen))} candidate sets)')
+    legacy = set(legacy_seen[0])
     from .compiler_rules import grammar_classes
     _, text = grammar_classes(P)
     kw = set(re.findall(r"'([A-Z]+)'", '\n'.join(l for l in text.splitlines() if l.startswith('@@keyword') or l.startswith("    '"))))
@@ -502,82 +537,25 @@ def rule_dispatch(P) -> RuleResult:
     for c in sorted(legacy):
         if not any(f'do_{c}' in k.methods or f'do_{c}' in k.attrs for k in sh.classes.values()):
             res.fail(oc.fq, f'dispatch:missing:{c}', f'bare command `{c}` has no do_{c} method', loc(oc))
-    # execute the dispatch over its cases
+    # the dispatch over its cases
     n = 0
     ok = True
-    for dotted, known, is_legacy in itertools.product((True, False), (True, False), (True, False)):
+    for (dotted, known, is_legacy), evs in sorted(outcomes.items(), reverse=True):
         n += 1
-        events = []
-        cmd = 'KNOWN' if known else 'UNKNOWN'
-        line = ('.' if dotted else '') + 'x'
-
-        def callh(e, st, mm, _d=dotted, _k=known):
-            f = unparse(e.func)
-            if f == 'self.parseline':
-                return (finite.Sym('CMD'), finite.Sym('ARG'), finite.Sym('LINE'))
-            if f.endswith('.startswith'):
-                return _d
-            if f.endswith('.lower'):
-                return finite.Sym('CMD')
-            if f == 'getattr':
-                return finite.Sym('FUNC') if _k else None
-            if f == 'self.execute':
-                events.append('execute')
-                return finite.Sym('R')
-            if f == 'func':
-                events.append('command')
-                return finite.Sym('R')
-            if f == 'self.error':
-                events.append('error')
-                return None
-            if f == 'warnings.warn':
-                events.append('warn')
-                return None
-            return finite.Sym(f)
-
-        class M(finite.Machine):
-            def stmt(self, s, st):
-                if isinstance(s, ast.Assign) and isinstance(s.targets[0], ast.Tuple):
-                    v = self.ev(s.value, st)
-                    st = dict(st)
-                    for t, x in zip(s.targets[0].elts, v):
-                        st[t.id] = x
-                    return st
-                return super().stmt(s, st)
-        mach = M(call=callh, contains=lambda l, c, st, _l=is_legacy: _l,
-                 names={**{k: finite.Sym(k) for k in sh.assigns}, 'self': finite.Sym('self'), oc.params[1]: finite.Sym('line')},
-                 expr=lambda e, st, mm: finite.Sym(unparse(e)))
-        try:
-            mach.run(body_without_docstring(oc.node), {})
-        except finite.Return:
-            pass
         if dotted:
             want = ['command'] if known else ['error']
         elif not is_legacy:
             want = ['execute']
         else:
             want = ['warn', 'command'] if known else ['warn', 'error']
-        if events != want:
-            ok = False
-            res.fail(oc.fq, f'dispatch:{"dot" if dotted else "bare"}:{"known" if known else "unknown"}:{"legacy" if is_legacy else "other"}',
-                     f'a line {"with" if dotted else "without"} the dot prefix, command {"defined" if known else "not defined"}, '
-                     f'{"in" if is_legacy else "not in"} the legacy set leads to {events}; expected {want} (dot-commands are never run as '
-                     f'queries nor queries as commands)', loc(oc))
-            break
-    if ok:
-        res.ok({'function': oc.fq, 'cases': n})
-    # statement handlers render through the selected format with the settings
-    shell = sh.classes.get('BQLShell')
-    sel = shell.methods.get('on_Select') if shell else None
-    if sel is None:
-        raise AnalysisError('anchor vanished: BQLShell.on_Select')
-    s = unparse(sel.node)
-    for needle, what in (('FORMATS.get(self.settings.format)', 'renders with the format selected by the settings'),
-                         ('**self.settings.todict()', 'passes all settings to the renderer'),
-                         ('if self.settings.numberify:', 'numberifies exactly when the setting is on'),
-                         ('self.context.execute(statement)', 'executes the statement through the API')):
-        if needle not in s:
-            res.fail(sel.fq, f'dispatch:select:{what.split()[0]}', f'on_Select no longer {what}', loc(sel))
-        else:
-            res.ok({'on_Select': what})
+        for events in evs:
+            if events != want and ok:
+                ok = False
+                res.fail(oc.fq, f'dispatch:{"dot" if dotted else "bare"}:{"known" if known else "unknown"}:{"legacy" if is_legacy else "other"}',
+                         f'a line {"with" if dotted else "without"} the dot prefix, command {"defined" if known else "not defined"}, '
+                         f'{"in" if is_legacy else "not in"} the legacy set leads to {events}; expected {want} (dot-commands are never run as '
+                         f'queries nor queries as commands)', loc(oc))
+            elif events == want:
+                res.ok({'function': oc.fq, 'dot_prefix': dotted, 'command_defined': known, 'legacy_name': is_legacy, 'leads_to': events})
     return res
+
